@@ -306,6 +306,17 @@ where
         // read the remainder polynomial from the channel and make sure it agrees with the evaluations
         // from the previous layer.
         let remainder_poly = channel.read_remainder()?;
+
+        // the remainder must be the polynomial the prover committed to before the query positions
+        // were drawn; its commitment is the last one in the list of layer commitments
+        let remainder_commitment = self
+            .layer_commitments
+            .last()
+            .ok_or(VerifierError::RemainderCommitmentMismatch)?;
+        if H::hash_elements(&remainder_poly) != *remainder_commitment {
+            return Err(VerifierError::RemainderCommitmentMismatch);
+        }
+
         if remainder_poly.len() > max_degree_plus_1 {
             return Err(VerifierError::RemainderDegreeMismatch(max_degree_plus_1 - 1));
         }
